@@ -388,7 +388,25 @@ func execBz(o *Out, id, line string) {
 		if len(out) > 0 || err == nil {
 			key = kv["in"]
 		}
-		o.Emit(id, line, "bz id="+id+" in="+hx(in), outSummary(out)+":"+cls, key)
+		ccls := cls
+		if cls != "eof" && cls != "deprecated" {
+			ccls = "rej" // the class of a rejected input is compared on cuts of accepted streams only
+		}
+		o.Emit(id, line, "bz id="+id+" in="+hx(in), outSummary(out)+":"+ccls, key)
+		if err == nil && len(in) <= 4000 {
+			// cuts of an accepted input: unexpected EOF (or acceptance at the end of one of its streams)
+			for q, k := 0, 0; q < 5 && len(in) > 0; q++ {
+				k = (k*7 + int(in[q%len(in)]) + q*13) % len(in)
+				cout, cerr := dsnetBunzipAll(in[:k])
+				c2 := bzClass(cerr)
+				o.Emit(fmt.Sprintf("%sc%d", id, q), "", fmt.Sprintf("bz id=%sc%d cls=1 in=%s", id, q, hx(in[:k])), outSummary(cout)+":"+c2, "")
+				if c2 != "ueof" && c2 != "eof" {
+					o.Violate("C09", fmt.Sprintf("bzip2 input of %d bytes cut at %d ends with class %s", len(in), k, c2), "cut-class", line)
+				} else if !bytes.HasPrefix(out, cout) {
+					o.Violate("C12", fmt.Sprintf("bzip2 input cut at %d delivers bytes that are not a prefix of the full output", k), "cut-prefix", line)
+				}
+			}
+		}
 		if cls != "eof" && cls != "corrupt" && cls != "ueof" && cls != "deprecated" {
 			o.Violate("C09", "bzip2.Reader failed with class "+cls, "class-"+cls, line)
 		}
